@@ -105,6 +105,12 @@ impl TimeZone {
                 Some(rule) => match rule {
                     TransitionRule::Fixed(local_time_type) => local_time_type.clone(),
                     TransitionRule::Alternate(altt) => {
+                        // The Gregorian calendar repeats every 400 years (146097 days, a whole
+                        // number of weeks) and so does the rule. Evaluating it within 400 years
+                        // of 1970 keeps the rule dates inside the supported date range even
+                        // for timestamps in the first and last supported year.
+                        let timestamp = timestamp % (146_097 * 86_400);
+
                         let std_end_timestamp = altt.local_std_end_timestamp(timestamp);
                         let dst_end_timestamp = altt.local_dst_end_timestamp(timestamp);
 
